@@ -684,3 +684,15 @@ def check_C19(tier, seed):
     # the local clauses (writes only when it must; flushed datagrams maximal) are theorems for every fault script
     # (c19_must_and_maximal), so the tie runs under faults too; the datagram count is judged on fault-free segments
     return run_writer_check("C19", tier, seed, True, "DESIGN.md 8.C19")
+
+
+def _replay_judge(prop, case, obs):
+    if case.startswith("S "):
+        v = check_spy(case, obs)
+        return [v] if v else []
+    v = _check_one((prop, case, obs))
+    return [v] if v else []
+
+
+def replay(prop, data):
+    return common.replay_case(prop, data, "mlw", _replay_judge)
